@@ -3,6 +3,7 @@ package c20
 import (
 	"fmt"
 	"math/big"
+	"sort"
 	"strings"
 	"testing"
 
@@ -338,7 +339,69 @@ func TestC20_Interpolate(t *testing.T) { forFrPolysRapid(t, propInterpolate) }
 
 // ---- MultiLin -------------------------------------------------------------------------------------
 
-var mlOps = []string{"Evaluate", "Evaluate", "Fold", "Eq", "EvalEq", "Clone", "Add", "Sum", "NumVars"}
+var mlOps = []string{"Evaluate", "Evaluate", "Fold", "FoldParallel", "FoldParallel", "FoldParallelPool", "Eq", "EvalEq", "Clone", "Add", "Sum", "NumVars", "PoolClone"}
+
+// drawChunks partitions [0,n) into consecutive chunks the way a scheduler might: k near-equal blocks (what
+// parallel.Execute does for k workers), blocks of a fixed size (WorkerPool.Submit), arbitrary cut points
+// (duplicates give empty chunks), or one chunk per index; then a drawn execution order.
+func drawChunks(t *rapid.T, n int) ([][2]int, []string) {
+	var ch [][2]int
+	kind := rapid.SampledFrom([]string{"equal_blocks", "equal_blocks", "fixed_size", "cuts", "cuts", "singletons"}).Draw(t, "chunking")
+	switch kind {
+	case "equal_blocks":
+		k := rapid.IntRange(1, 9).Draw(t, "workers")
+		if k > n {
+			k = n
+		}
+		per, extra, start := n/k, n%k, 0
+		for i := 0; i < k; i++ {
+			end := start + per
+			if i < extra {
+				end++
+			}
+			ch = append(ch, [2]int{start, end})
+			start = end
+		}
+	case "fixed_size":
+		b := rapid.SampledFrom([]int{1, 2, 3, 5, 7, n, n + 1}).Draw(t, "block")
+		for start := 0; start < n; start += b {
+			ch = append(ch, [2]int{start, min(start+b, n)})
+		}
+	case "cuts":
+		k := rapid.IntRange(0, 6).Draw(t, "ncuts")
+		cuts := []int{0, n}
+		for i := 0; i < k; i++ {
+			cuts = append(cuts, rapid.IntRange(0, n).Draw(t, fmt.Sprintf("cut%d", i)))
+		}
+		sort.Ints(cuts)
+		for i := 0; i+1 < len(cuts); i++ {
+			ch = append(ch, [2]int{cuts[i], cuts[i+1]})
+		}
+	default:
+		for i := 0; i < n; i++ {
+			ch = append(ch, [2]int{i, i + 1})
+		}
+	}
+	cls := []string{"chunking:" + kind, fmt.Sprintf("chunks:%d", min(len(ch), 8))}
+	for _, c := range ch {
+		l := c[1] - c[0]
+		switch {
+		case l == 0:
+			cls = append(cls, "chunk:empty")
+		case c[0]%2 == 1 && l%2 == 1:
+			cls = append(cls, "chunk:odd_start_odd_len")
+		case c[0]%2 == 1:
+			cls = append(cls, "chunk:odd_start_even_len")
+		case l%2 == 1:
+			cls = append(cls, "chunk:even_start_odd_len")
+		}
+	}
+	if len(ch) > 1 && rapid.Bool().Draw(t, "permuted") {
+		ch = rapid.Permutation(ch).Draw(t, "order")
+		cls = append(cls, "chunks_permuted")
+	}
+	return ch, dedup(cls)
+}
 
 // drawCoords draws n coordinates: free field elements, hypercube vertices, or a mix.
 func drawCoords(t *rapid.T, c *cx, n int, label string) ([]*big.Int, string) {
@@ -360,7 +423,7 @@ func propMultiLin(t *rapid.T, c *cx) {
 	F, I := c.F, c.P
 	op := rapid.SampledFrom(mlOps).Draw(t, "op")
 	nv := rapid.IntRange(0, rep.Scale(6, 9)).Draw(t, "nv")
-	if op == "Fold" && nv == 0 {
+	if strings.HasPrefix(op, "Fold") && nv == 0 {
 		nv = 1
 	}
 	table, tcl := drawElems(t, c, 1<<nv, "table")
@@ -388,6 +451,35 @@ func propMultiLin(t *rapid.T, c *cx) {
 			wantVec(t, "Evaluate: receiver afterwards", after, table)
 			classes = append(classes, "coords:"+xcl, fmt.Sprintf("pool:%v", usePool))
 			key += " x=" + hxs(x)
+		case "FoldParallel", "FoldParallelPool":
+			r := drawElem(t, c, "r")
+			if rapid.IntRange(0, 3).Draw(t, "bit") == 0 {
+				r = bi(int64(rapid.IntRange(0, 1).Draw(t, "rb")))
+			}
+			mid := len(table) / 2
+			want := F.MultilinFix(table, r)
+			if op == "FoldParallelPool" {
+				mb := rapid.SampledFrom([]int{1, 2, 3, 5, 7, mid, mid + 1, 2*mid + 1}).Draw(t, "minBlock")
+				wantVec(t, fmt.Sprintf("FoldParallel through WorkerPool.Submit(minBlock=%d)", mb), I.MLFoldParallelPool(table, r, mb), want)
+				classes = append(classes, fmt.Sprintf("minBlock_odd:%v", mb%2 == 1))
+				key += fmt.Sprintf(" r=%s minBlock=%d", hx(r), mb)
+				break
+			}
+			ch, ccl := drawChunks(t, mid)
+			conc := rapid.Bool().Draw(t, "concurrent")
+			got, l := I.MLFoldParallel(table, r, ch, conc)
+			if l != mid {
+				t.Fatalf("C20: FoldParallel left a table of length %d, want %d", l, mid)
+			}
+			wantVec(t, fmt.Sprintf("FoldParallel, task run on the chunks %v (concurrent=%v)", ch, conc), got, want)
+			classes = append(append(classes, ccl...), fmt.Sprintf("concurrent:%v", conc))
+			key += fmt.Sprintf(" r=%s chunks=%v", hx(r), ch)
+		case "PoolClone":
+			got, ml := I.PoolClone(table)
+			if ml != len(table) {
+				t.Fatalf("C20: Pool.Make(%d) has length %d", len(table), ml)
+			}
+			wantVec(t, "Pool.Clone (after overwriting the original)", got, table)
 		case "Fold":
 			r := drawElem(t, c, "r")
 			if rapid.IntRange(0, 3).Draw(t, "bit") == 0 {
